@@ -1,7 +1,6 @@
 package rpcsim
 
 import (
-	"context"
 	"fmt"
 	"sort"
 	"strings"
@@ -22,7 +21,9 @@ type Option struct {
 	Val     uint64
 	IDs     []int64
 	D       int
-	Shape   int // delivery shape of nres / nerr / ack (wire.go); 0 = direct engine call
+	CtxKind int  // kind of the caller's context (ctx.go), start only
+	PreCanc bool // the context is already cancelled / expired when Do is called
+	Shape   int  // delivery shape of nres / nerr / ack (wire.go); 0 = direct engine call
 }
 
 // Label is the model action label of the option.
@@ -135,7 +136,7 @@ func (s *Sim) callObs(c *Call) string {
 func (s *Sim) afterCall(c *Call) {
 	if c.th.point == "fin" && !c.Finished {
 		c.Finished = true
-		c.Ret = Classify(c.Err)
+		c.Ret = Classify(c.Err, c.ctx)
 		c.retStamp = len(s.Trace)
 		s.checkReturn(c)
 	}
@@ -216,8 +217,11 @@ func (s *Sim) apply(o Option) bool {
 	s.Pending = o.Label()
 	switch o.Kind {
 	case "start":
-		ctx, cancel := context.WithCancel(context.Background())
-		c := &Call{ID: o.ID, Seq: o.Seq, Body: o.Body, ctx: ctx, cancel: cancel, Started: true}
+		ctx, cancel := newCallCtx(o.CtxKind)
+		c := &Call{ID: o.ID, Seq: o.Seq, Body: o.Body, ctx: ctx, cancel: cancel, Started: true, CtxKind: o.CtxKind}
+		if o.PreCanc {
+			cancel()
+		}
 		t := &thread{kind: "call", id: o.ID, resume: make(chan string), call: c}
 		c.th = t
 		if old, ok := s.calls[o.ID]; ok {
@@ -232,6 +236,15 @@ func (s *Sim) apply(o Option) bool {
 		}
 		s.afterCall(c)
 		s.record(o.Label(), s.callObs(c))
+		if o.PreCanc {
+			// Do does not look at its context before the first send: an already cancelled context is
+			// the same as a cancellation right after the start
+			if !c.Finished {
+				c.UserCanc = true
+				s.Stats["cancel-pending"]++
+			}
+			s.record(fmt.Sprintf("cancel %d", o.ID), "-")
+		}
 	case "sret", "run", "dret":
 		c := s.calls[o.ID]
 		was := c.th.point
@@ -502,7 +515,10 @@ func (s *Sim) checkReturn(c *Call) {
 			s.viol("C24", "wrong-result", "call %d returned rpc error %d that was never addressed to it", c.ID, code)
 		}
 	case strings.HasPrefix(c.Ret, "other"):
-		s.viol("C24", "wrong-result", "call %d returned an unexpected error: %s", c.ID, c.Ret)
+		s.viol("C24", "wrong-result", "call %d (context kind %d) returned an unexpected error: %s", c.ID, c.CtxKind, c.Ret)
+		if c.UserCanc {
+			s.viol("C26", "cancel-error-class", "cancelled call %d (context kind %d, sent=%v, drops=%d) returned %s instead of its context's error", c.ID, c.CtxKind, c.Sent, c.Drops, c.Ret)
+		}
 	case strings.HasPrefix(c.Ret, "retryLimit"):
 		var n int
 		fmt.Sscanf(c.Ret, "retryLimit%d", &n)
